@@ -83,6 +83,12 @@ CHECKS['C12'] = dict(technique='runtime monitoring: reference-model oracle (inde
                   'arguments written, re-encoding must reproduce the blob, and values that fit under neither reading / unencodable strings / oversize strings must be diagnosed.',
              note='Conservative range rule (see DESIGN 3/C12). Jump (o,t) and arg0 parameters are exercised by C01/C13, not here. Registers only in 4-byte int and float slots.',
              design='3/C12')
+CHECKS['C15'] = dict(technique='runtime monitoring: inverse-function oracle (decompiled literal == source string) over a character/length sweep under every string encoding',
+             text='Exploration. Strings over the unambiguous Shift-JIS repertoire (incl. trail bytes 0x5C/0x7C/0x40 and bytes equal to the running mask) of lengths 0..300 around all block/buffer boundaries '
+                  'and furigana sequences are compiled and decompiled as instruction arguments under every string encoding (user signatures in ANM; built-in MSG/END signatures of TH06-TH18) and as STD names, '
+                  'ANM paths and ciphered mission lines; the decompiled literal must be identical, unencodable or oversize strings must be rejected with an error.',
+             note='Repertoire = characters on which python shift_jis and cp932 agree and round-trip (backslash/tilde excluded). With a pending furigana carry-over (furibug) only survival is judged, not the size limit.',
+             design='3/C15')
 WIP = {}  # property -> reason (not claimed)
 
 def main():
